@@ -879,6 +879,8 @@ impl IndexManager {
         file.sync_all()
             .map_err(|e| StorageError::Index(format!("Failed to fsync: {e}")))?;
 
+        #[cfg(feature = "verif-hooks")]
+        crate::verif_hooks::sched_point("idx.save.tmp_written");
         Ok(())
     }
 
